@@ -16,8 +16,9 @@
 (*         prints each with its expected values (Emit); at the leaves the  *)
 (*         algebraic facts the property relies on are checked: the result  *)
 (*         is linear in the currents, the area enters as a weight of the   *)
-(*         source current (dropping it is visible), and the order of       *)
-(*         summation does not matter.                                      *)
+(*         source current (dropping it is visible), the order of summation *)
+(*         does not matter, and the sum has no absolute length scale       *)
+(*         (ScaleCovariant: points * c, areas * c^2 => result * c).        *)
 (*  TSpec  validates what the REAL kernel (and the numpy reference used by *)
 (*         the abstraction of natural runs) returned on such instances:    *)
 (*         the harness maps every returned float to the integer numerator  *)
@@ -97,6 +98,12 @@ AreaIsWeight == Leaf => \A i \in 1..Len(Geoms[g].evals), k \in 1..2 :
               [j \in 1..NSites |-> 1], k) = Expected[i][k]
 OrderIndependent == Leaf => \A i \in 1..Len(Geoms[g].evals), k \in 1..2 :
             SumDownFrom(1, NSites, Geoms[g].evals[i], GSites, GK, GArea, k) = Expected[i][k]
+\* coordinates scaled by c and areas by c^2 scale the result by c: the sum has no absolute length scale
+\* (the harness runs the instances at coordinate scales 2^-30 .. 2^10)
+ScalePt(c, p) == <<c * p[1], c * p[2]>>
+ScaleCovariant == Leaf => \A c \in {2, 3} : \A i \in 1..Len(Geoms[g].evals), k \in 1..2 :
+            A(ScalePt(c, Geoms[g].evals[i]), [j \in 1..NSites |-> ScalePt(c, GSites[j])], GK,
+              [j \in 1..NSites |-> c * c * GArea[j]], k) = RScale(c, Expected[i][k])
 \* sanity of the instance family: somewhere the area weight matters (the family can see a dropped weight)
 AreaNeverMatters == Leaf => \A i \in 1..Len(Geoms[g].evals), k \in 1..2 :
             A(Geoms[g].evals[i], GSites, GK, [j \in 1..NSites |-> 1], k) = Expected[i][k]
